@@ -149,6 +149,7 @@ package webdav
 //@   ensures K7: validName(name) && old(!isDir(lnode(name)) && !condOK(string(opts.IfMatch), string(opts.IfNoneMatch), putTag(lnode(name)))) ==> httpCode(err) == old(condCode(string(opts.IfMatch), string(opts.IfNoneMatch), putTag(lnode(name))))
 //@   ensures K8: validName(name) && old(!isDir(lnode(name)) && !isDir(parent(lnode(name))) && condOK(string(opts.IfMatch), string(opts.IfNoneMatch), putTag(lnode(name)))) ==> httpCode(err) == 409
 //@   ensures K9: err != nil ==> fi == nil && !created && !hostPath(err)
+//@   ensures K10: err != nil && old(putAccepted(name, string(opts.IfMatch), string(opts.IfNoneMatch))) ==> !isHTTP(err)
 //@   ensures WF: wfTree()
 
 //@ -- COPY / MOVE
@@ -289,6 +290,7 @@ package webdav
 //@   ensures B5: err != nil ==> wstatus(w) == 0 && !hostPath(err)
 //@   ensures B6: err != nil && old(putCode(r.URL.Path, hdr(r, "If-Match"), hdr(r, "If-None-Match"))) != 0 ==> httpCode(err) == old(putCode(r.URL.Path, hdr(r, "If-Match"), hdr(r, "If-None-Match")))
 //@   |   && tree == old(tree) && data == old(data)
+//@   ensures B8: err != nil && old(putCode(r.URL.Path, hdr(r, "If-Match"), hdr(r, "If-None-Match"))) == 0 ==> !isHTTP(err)
 //@   ensures B7: err != nil && old(absent(lnode(r.URL.Path))) ==> tree == old(tree) && (forall m $P :: isFile(m) ==> contentOf(data, m) == contentOf(old(data), m))
 //@   ensures WF: wfTree()
 //@ func webdav.(*backend).Copy(b, r, dest, recursive, overwrite) (created, err)
@@ -355,3 +357,58 @@ package webdav
 //@   loop 1 invariant I1: len(resps) == len(children) && fresh(resps) && formOK(propfind) == old(formOK(propfind))
 //@   loop 1 invariant I2: forall j int :: 0 <= j && j < #i ==> len(resps[j].Hrefs) == 1 && resps[j].Hrefs[0].Path == children[j].Path
 //@   loop 1 invariant I3: #i > 0 ==> formOK(propfind)
+
+//@ -- ---------------------------------------------------------------------------------------
+//@ -- The handler: one request against the abstract resource tree (C01, C02, C03, C13, C17).
+//@ -- internal.Handler.ServeHTTP, its handle* helpers and ServeError are inlined here; the calls through the
+//@ -- Backend interface resolve to the backend methods above (the dynamic type is fixed by this function).
+//@ spec servedH(h *Handler) bool = h != nil && dynIs(h.FileSystem, "LocalFileSystem") && served(dynVal(h.FileSystem, "LocalFileSystem"))
+//@ spec destPath(r *http.Request) string = urlParsePath(hdr(r, "Destination"))
+//@ spec cmHeadersOK(r *http.Request) bool = hdr(r, "Destination") != "" && urlParseOk(hdr(r, "Destination"))
+//@   | && (hdr(r, "Overwrite") == "" || hdr(r, "Overwrite") == "T" || hdr(r, "Overwrite") == "F")
+//@   | && (hdr(r, "Depth") == "" || hdr(r, "Depth") == "infinity" || (r.Method == "COPY" && hdr(r, "Depth") == "0"))
+//@ spec cmCode(r *http.Request) int = !cmHeadersOK(r) ? 400 : copyMoveCode(r.URL.Path, destPath(r), hdr(r, "Overwrite") == "F")
+//@ func webdav.(*Handler).ServeHTTP(h, w, r)
+//@   requires R1: servedH(h) && reqOK(r) && w != nil && wstatus(w) == 0 && respHeader(w) != r.Header
+//@   -- taint assumption: the client does not already know the host path
+//@   requires R2: !strHostPath(destPath(r)) && !strHostPath(hdr(r, "Destination"))
+//@   allocates
+//@   assigns ghost:tree, ghost:data, ghost:fhNode, ghost:rstatus, ghost:hv, ghost:wbody, ghost:rdC, ghost:rdIdx, ghost:servedMS
+//@   ensures A0: wstatus(w) != 0
+//@   ensures WF: wfTree()
+//@   ensures DEL1: r.Method == "DELETE" ==> wstatus(w) == (old(delCode(r.URL.Path, hdr(r, "If-Match"), hdr(r, "If-None-Match"))) == 0 ? 204 : old(delCode(r.URL.Path, hdr(r, "If-Match"), hdr(r, "If-None-Match"))))
+//@   ensures DEL2: r.Method == "DELETE" && wstatus(w) == 204 ==> (forall m $P :: kindOf(tree, m) == (anc(lnode(r.URL.Path), m) ? 0 : kindOf(old(tree), m))) && data == old(data)
+//@   ensures MK1: r.Method == "MKCOL" ==> wstatus(w) == (old(mkcolCode(r.URL.Path, hdr(r, "Content-Type"))) == 0 ? 201 : old(mkcolCode(r.URL.Path, hdr(r, "Content-Type"))))
+//@   ensures MK2: r.Method == "MKCOL" && wstatus(w) == 201 ==> tree == setKind(old(tree), lnode(r.URL.Path), 2) && data == old(data)
+//@   ensures PUT1: r.Method == "PUT" && old(putCode(r.URL.Path, hdr(r, "If-Match"), hdr(r, "If-None-Match"))) != 0 ==> wstatus(w) == old(putCode(r.URL.Path, hdr(r, "If-Match"), hdr(r, "If-None-Match")))
+//@   ensures PUT2: r.Method == "PUT" && old(putCode(r.URL.Path, hdr(r, "If-Match"), hdr(r, "If-None-Match"))) == 0 ==> wstatus(w) == (readerFails(r.Body) ? 500 : (old(absent(lnode(r.URL.Path))) ? 201 : 204))
+//@   ensures PUT3: r.Method == "PUT" && wstatus(w) < 300 ==> tree == setKind(old(tree), lnode(r.URL.Path), 1) && contentOf(data, lnode(r.URL.Path)) == readerContent(r.Body)
+//@   |   && (forall m $P :: m != lnode(r.URL.Path) ==> contentOf(data, m) == contentOf(old(data), m)) && hget(hv, respHeader(w), "ETag") == quote(tagOf(lnode(r.URL.Path)))
+//@   ensures CM1: (r.Method == "COPY" || r.Method == "MOVE") ==> wstatus(w) == (old(cmCode(r)) == 0 ? (old(absent(lnode(destPath(r)))) ? 201 : 204) : old(cmCode(r)))
+//@   ensures CM2: r.Method == "COPY" && wstatus(w) < 300 ==> (forall m $P :: kindOf(tree, m) == (anc(lnode(destPath(r)), m) ? ((m == lnode(destPath(r)) || hdr(r, "Depth") != "0") ? kindOf(old(tree), graft(lnode(r.URL.Path), lnode(destPath(r)), m)) : 0) : kindOf(old(tree), m)))
+//@   ensures CM3: r.Method == "MOVE" && wstatus(w) < 300 ==> (forall m $P :: kindOf(tree, m) == (anc(lnode(r.URL.Path), m) ? 0 : (anc(lnode(destPath(r)), m) ? kindOf(old(tree), graft(lnode(r.URL.Path), lnode(destPath(r)), m)) : kindOf(old(tree), m))))
+//@   ensures CM4: (r.Method == "COPY" || r.Method == "MOVE") && wstatus(w) < 300 ==> (forall m $P :: anc(lnode(destPath(r)), m) ==> contentOf(data, m) == contentOf(old(data), graft(lnode(r.URL.Path), lnode(destPath(r)), m)))
+//@   |   && (forall m $P :: !anc(lnode(destPath(r)), m) ==> contentOf(data, m) == contentOf(old(data), m))
+//@   ensures GET1: (r.Method == "GET" || r.Method == "HEAD") && !(validName(r.URL.Path) && !absent(lnode(r.URL.Path)) && !isDir(lnode(r.URL.Path))) ==> wstatus(w) == (!validName(r.URL.Path) ? 400 : (absent(lnode(r.URL.Path)) ? 404 : 405))
+//@   ensures GET2: (r.Method == "GET" || r.Method == "HEAD") && validName(r.URL.Path) && !absent(lnode(r.URL.Path)) && !isDir(lnode(r.URL.Path)) ==> (plainGet(r) ==> wstatus(w) == 200)
+//@   |   && hget(hv, respHeader(w), "ETag") == quote(tagOf(lnode(r.URL.Path))) && (wstatus(w) == 200 && r.Method == "GET" ==> smt("int", "(select $0 $1)", wbody, w) == contentOf(data, lnode(r.URL.Path)))
+//@   ensures OPT: r.Method == "OPTIONS" ==> wstatus(w) == (validName(r.URL.Path) ? 204 : 400)
+//@   ensures OTHER: r.Method != "OPTIONS" && r.Method != "GET" && r.Method != "HEAD" && r.Method != "PUT" && r.Method != "DELETE" && r.Method != "PROPFIND" && r.Method != "PROPPATCH"
+//@   |   && r.Method != "MKCOL" && r.Method != "COPY" && r.Method != "MOVE" ==> wstatus(w) == 405
+//@   -- C02: a request answered 4xx/5xx leaves the tree as it was (the exception is the recorded finding: PUT body failure on an existing file)
+//@   ensures C02: wstatus(w) >= 400 && !(r.Method == "PUT" && readerFails(r.Body) && old(isFile(lnode(r.URL.Path)))) ==> tree == old(tree) && (forall m $P :: isFile(m) ==> contentOf(data, m) == contentOf(old(data), m))
+//@   ensures C02-putbodyfail: wstatus(w) >= 400 && r.Method == "PUT" && readerFails(r.Body) && old(isFile(lnode(r.URL.Path))) ==> tree == old(tree) && (forall m $P :: isFile(m) ==> contentOf(data, m) == contentOf(old(data), m))
+//@   -- read-only methods never change the tree
+//@   ensures RO: (r.Method == "GET" || r.Method == "HEAD" || r.Method == "OPTIONS" || r.Method == "PROPFIND" || r.Method == "PROPPATCH") ==> tree == old(tree) && data == old(data)
+//@   -- PROPFIND: 207 only for an existing resource; the multi-status lists exactly the resources in scope of the Depth header
+//@   ensures PF1: r.Method == "PROPFIND" ==> wstatus(w) == 207 || wstatus(w) == 400 || wstatus(w) == 404
+//@   ensures PF2: r.Method == "PROPFIND" && wstatus(w) == 207 ==> validName(r.URL.Path) && !absent(lnode(r.URL.Path)) && servedMS != nil
+//@   |   && (hdr(r, "Depth") == "" || hdr(r, "Depth") == "0" || hdr(r, "Depth") == "1" || hdr(r, "Depth") == "infinity")
+//@   ensures PF3: r.Method == "PROPFIND" && wstatus(w) == 207 && (hdr(r, "Depth") == "0" || !isDir(lnode(r.URL.Path))) ==> len(servedMS.Responses) == 1 && len(servedMS.Responses[0].Hrefs) == 1 && servedMS.Responses[0].Hrefs[0].Path == r.URL.Path
+//@   ensures PF4: r.Method == "PROPFIND" && wstatus(w) == 207 && hdr(r, "Depth") != "0" && isDir(lnode(r.URL.Path)) ==> (forall i int :: 0 <= i && i < len(servedMS.Responses) ==> len(servedMS.Responses[i].Hrefs) == 1
+//@   |   && validName(servedMS.Responses[i].Hrefs[0].Path) && lnode(servedMS.Responses[i].Hrefs[0].Path) == rdNode(i) && inScope(lnode(r.URL.Path), rdNode(i), hdr(r, "Depth") != "1"))
+//@   ensures PF5: r.Method == "PROPFIND" && wstatus(w) == 207 && hdr(r, "Depth") != "0" && isDir(lnode(r.URL.Path)) ==> (forall m $P :: inScope(lnode(r.URL.Path), m, hdr(r, "Depth") != "1") ==>
+//@   |   0 <= smt("int", "(select $0 $1)", rdIdx, m) && smt("int", "(select $0 $1)", rdIdx, m) < len(servedMS.Responses) && rdNode(smt("int", "(select $0 $1)", rdIdx, m)) == m)
+//@   |   && (forall i int, j int :: 0 <= i && i < j && j < len(servedMS.Responses) ==> rdNode(i) != rdNode(j))
+//@   ensures PF6: r.Method == "PROPFIND" && validName(r.URL.Path) && absent(lnode(r.URL.Path)) ==> wstatus(w) == 404 || wstatus(w) == 400
+//@   ensures PP: r.Method == "PROPPATCH" ==> wstatus(w) == 400 || wstatus(w) == 403
